@@ -1,11 +1,14 @@
 package universal
 
 import (
+	"context"
+	"encoding/json"
 	"reflect"
 	"sort"
 	"strconv"
 	"strings"
 
+	"github.com/99designs/gqlgen/graphql"
 	"github.com/vektah/gqlparser/v2/ast"
 )
 
@@ -47,6 +50,12 @@ type C02Resolver struct {
 	Name string     `json:"name"`
 	List int        `json:"list"` // list depth of the field's own type (0 for Boolean)
 	Args []C02Field `json:"args"`
+	// a field bound to a METHOD of a hand-written model (no resolver): by reflection over the model type
+	Bound       string   `json:"bound,omitempty"`       // "method"
+	GoMethod    string   `json:"goMethod,omitempty"`    // the method's Go name
+	HasCtx      bool     `json:"hasCtx,omitempty"`      // first parameter is a context.Context
+	Variadic    bool     `json:"variadic,omitempty"`    // the last parameter is variadic
+	ParamShapes []string `json:"paramShapes,omitempty"` // Go shapes of the parameters after the context, in declaration order
 }
 type C02SchemaJSON struct {
 	Types  []C02Type     `json:"types"`
@@ -150,8 +159,9 @@ func listDepth(t *ast.Type) int {
 	return 1 + listDepth(t.Elem)
 }
 
-func C02Schema(s *ast.Schema, stub reflect.Type) C02SchemaJSON {
+func C02Schema(s *ast.Schema, stub reflect.Type, models ...map[string]reflect.Type) C02SchemaJSON {
 	out := C02SchemaJSON{}
+	ctxType := reflect.TypeOf((*context.Context)(nil)).Elem()
 	// resolver signatures: obj -> lower(goField) -> func type
 	sigs := map[string]map[string]reflect.Type{}
 	structs := map[string]reflect.Type{}
@@ -171,6 +181,20 @@ func C02Schema(s *ast.Schema, stub reflect.Type) C02SchemaJSON {
 				sigs[obj][strings.ToLower(f.Name)] = f.Type
 				for k := 1; k < f.Type.NumIn(); k++ {
 					collectStructs(f.Type.In(k), structs)
+				}
+			}
+		}
+	}
+	if len(models) > 0 {
+		// input structs that only occur as parameters of methods of hand-written models
+		for n, mt := range models[0] {
+			if d := s.Types[n]; d == nil || d.Kind != ast.Object || sigs[n] != nil {
+				continue
+			}
+			pt := reflect.PointerTo(mt)
+			for i := 0; i < pt.NumMethod(); i++ {
+				for k := 1; k < pt.Method(i).Type.NumIn(); k++ {
+					collectStructs(pt.Method(i).Type.In(k), structs)
 				}
 			}
 		}
@@ -219,6 +243,25 @@ func C02Schema(s *ast.Schema, stub reflect.Type) C02SchemaJSON {
 				}
 				r := C02Resolver{Obj: n, Name: f.Name, List: listDepth(f.Type), Args: []C02Field{}}
 				ft, ok := sigs[n][strings.ToLower(f.Name)]
+				if _, isRes := sigs[n]; !isRes && len(models) > 0 && models[0][n] != nil {
+					// not a resolver: a method of the hand-written model the type is bound to?
+					pt := reflect.PointerTo(models[0][n])
+					for i := 0; i < pt.NumMethod(); i++ {
+						m := pt.Method(i)
+						if !strings.EqualFold(m.Name, f.Name) {
+							continue
+						}
+						r.Bound, r.GoMethod, r.Variadic = "method", m.Name, m.Type.IsVariadic()
+						r.ParamShapes = []string{}
+						for k := 1; k < m.Type.NumIn(); k++ { // In(0) is the receiver
+							if k == 1 && m.Type.In(k) == ctxType {
+								r.HasCtx = true
+								continue
+							}
+							r.ParamShapes = append(r.ParamShapes, C02Shape(m.Type.In(k)))
+						}
+					}
+				}
 				first := 1
 				if n != "Query" && n != "Mutation" && n != "Subscription" {
 					first = 2
@@ -234,6 +277,28 @@ func C02Schema(s *ast.Schema, stub reflect.Type) C02SchemaJSON {
 				}
 				out.Fields = append(out.Fields, r)
 			}
+		}
+	}
+	return out
+}
+
+// C02Recv is the body of a hand-written model method bound to a field WITH ARGUMENTS (probes coerce / coercemt):
+// the method passes the values its parameters received, listed in the schema's argument order; they are rendered
+// like the universal resolver renders a resolver's arguments and the rendering is the field's value. With a
+// context (a method declared with one) the invocation is also logged like a resolver invocation.
+func C02Recv(ctx context.Context, vals ...any) string {
+	parts := make([]string, 0, len(vals))
+	for _, v := range vals {
+		parts = append(parts, RenderArg(reflect.ValueOf(v)))
+	}
+	out := strings.Join(parts, ", ")
+	if ctx != nil {
+		if s := GetState(ctx); s != nil {
+			fc := graphql.GetFieldContext(ctx)
+			b, _ := json.Marshal(out)
+			inv := Inv{Path: PathString(fc.Path()), Hook: "resolver", Obj: fc.Object, Field: fc.Field.Name, Start: s.tick(),
+				Kind: "value", Val: &V{K: "leaf", Text: string(b)}, Args: out}
+			s.record(inv)
 		}
 	}
 	return out
